@@ -267,6 +267,16 @@ func listOps(kind int, thorough bool) []lop {
 		ops = append(ops, lop{name: "Get" + own, idx: ix})
 	}
 	ops = append(ops, lop{name: "SetString", idx: "0", arg: "x"}, lop{name: "SetString", idx: "size-1", arg: "9"}, lop{name: "SetDouble", idx: "0", arg: 0.5})
+	// cross-kind sets (every Set<K> of every list), in range and one past the end
+	for _, ka := range []struct {
+		k   string
+		arg interface{}
+	}{{"Int", 5}, {"Long", int64(-6)}, {"Float", float32(2.5)}, {"Double", -2.25}} {
+		if ka.k != own {
+			ops = append(ops, lop{name: "Set" + ka.k, idx: "0", arg: ka.arg}, lop{name: "Set" + ka.k, idx: "size", arg: ka.arg})
+		}
+	}
+	ops = append(ops, lop{name: "GetValue", idx: "0"}, lop{name: "GetValue", idx: "size"})
 	for _, k := range []string{"Int", "Long", "Float", "Double", "String"} {
 		if k != own {
 			ops = append(ops, lop{name: "Get" + k, idx: "0"}, lop{name: "Get" + k, idx: "size-1"})
@@ -400,6 +410,12 @@ func lstep(l list.AnyList, m *lmodel, o lop) string {
 		if !inRange {
 			if !p {
 				return fmt.Sprintf("%s (index %d, size %d, capacity %d) returned %v instead of reporting the index out of range (stale slot)", o, i, size, capa, got)
+			}
+			return ""
+		}
+		if o.name == "GetValue" {
+			if p || got == nil {
+				return fmt.Sprintf("%s (index %d) panicked=%v (%s) / returned %v for a stored element", o, i, p, msg, got)
 			}
 			return ""
 		}
